@@ -1,0 +1,20 @@
+//go:build verif
+
+package random
+
+// This file is only compiled with the `verif` build tag. It is a verification hook: it
+// exposes the package's generic sampling code (UintN, Permutation, SubPermutation, Shuffle,
+// Samples) over a caller-supplied byte source, so that an external monitor can drive the
+// real implementation from an enumerated random tape instead of ChaCha20.
+
+type verifPRG struct {
+	genericPRG
+}
+
+// Store is not meaningful for a tape-driven generator.
+func (v *verifPRG) Store() []byte { return nil }
+
+// NewVerifRand returns a Rand whose random bytes come from `core`.
+func NewVerifRand(core interface{ Read([]byte) }) Rand {
+	return &verifPRG{genericPRG: genericPRG{randCore: core}}
+}
